@@ -88,6 +88,9 @@ def check(ctx, report):
     from .c11 import flags_and_timestamps
     report.rule('C16.R6', 'certificate validity bounds survive parse / compose: every wire value that is accepted is written back as it was')
     flags_and_timestamps(ctx, report, R4='C16.R6', R5='C16.R6')
+    # ---- R8: the ECDSA point inside the blob (shared with C07.R12): coordinates with leading zero octets keep their width
+    from .c07 import ecdsa_points
+    ecdsa_points(ctx, report, RULE='C16.R8')
     # ---- R7: the key object that is fingerprinted stands for the *whole* blob that was on the wire: a nested parse of the key whose
     # reported length is dropped accepts a key followed by other bytes, and the digest is then taken over a shorter blob than the peer
     # sent (rule shared with C03.R6, on the SSH modules)
